@@ -103,7 +103,9 @@ func (fr *frame) concTermSmall(t *Term) value {
 		}
 		kt := mkConst(cur, t.w, t.signed)
 		ex.pendingK = cur
+		ex.noFast = true
 		got := ex.decide(mkEq(t, kt))
+		ex.noFast = false
 		ex.pendingK = 0
 		if got {
 			return constToValue(kt, true)
